@@ -20,7 +20,7 @@ CHECKS = {
    "Root set per the property text (stack, globals, active frames' closures, guarded objects, arguments of the running host function); upvalues are reached through the closures that use them and their location is followed wherever it points inside the value stack's memory; popped operands of plain instructions are not roots. A collection-free reference run that ends in OutOfMemory or Timeout, or has more than 20000 allocation points, is discarded. Closures capture only in main (frame offset 0) to stay clear of the C06 frame-offset defect. Host natives are stubs.",
    "deterministic simulation: seeded programs x controlled collector schedules (forced through the production threshold), quarantine heap audit + differential observation"),
  "C03": ("fault_enumeration",
-   "The VM's clock is its instruction budget. Seeded programs with busy work / endless loops reached through 1-3 levels of host re-entry (call0 by card, call0 as a native function value, try0 that swallows its callee's failure), __sort/__min key functions, std.map callbacks and plain calls (plus G-alloc programs); the budget N is swept over every value 1..T+2 (seeded subset above a cap) and boundary values, with a controller that counts every dispatch of every nested activation and unwinds at N+1. Oracles: dispatched <= N; N < T implies Timeout; N > T leaves the outcome unchanged; non-terminating programs always time out.",
+   "The VM's clock is its instruction budget. Seeded programs with busy work / endless loops reached through 1-3 levels of host re-entry (call0 by card, call0 as a native function value, try0 that swallows its callee's failure), __sort/__min key functions, std.map callbacks and plain calls (plus G-alloc programs); the budget N is swept over every value 1..T+2 (seeded subset above a cap) and boundary values, with a controller that counts every dispatch of every nested activation and unwinds at N+1. Oracles: dispatched <= N; N < T implies Timeout; N > T leaves the outcome unchanged; non-terminating programs always time out. For one terminating program in three the budgets are also tried on a VM with a past: 2-4 runs on one VM, each under its own budget (spare, short, exact), judged against the same history run without limits: every run is bounded by the budget it was started with, whatever earlier runs used or left over.",
    "T is measured by a dry run under an observer cap of 30000 instructions; N == T may go either way; Timeout may be wrapped in TaskFailure; budget 0 belongs to C04.",
    "deterministic simulation: instruction-budget (clock) sweep per program with a global dispatch counter across nested activations"),
  "C12": ("fault_enumeration",
